@@ -10,7 +10,7 @@ REG['C01'] = {
     'level': 'proof',
     'design_ref': '5/C01',
     'technique': 'Kani function contracts + full-domain symbolic harnesses on the real jd.rs/solar.rs functions (f64 bit-precise), Verus lemmas over the spec calendar',
-    'level_text': 'Every clause is a K or V obligation over the whole input domain: date->day-number against a first-principles calendar spec (all y,m,d), acceptance == existence, the inverse conversion for every day number (quick: stated subset of 100 year-slices, thorough: complete partition + the contract form), subtract/next/order/lengths; Verus lemmas give +1 per civil day incl. the 1582 cut-over, bijection onto 3,652,061 day numbers, order <=> day-number order. No leaf contracts.',
+    'level_text': 'Every clause is a K or V obligation over the whole input domain: date->day-number against a first-principles calendar spec (all y,m,d), acceptance == existence, the inverse conversion for every day number (quick: stated subset of 100 year-slices, thorough: complete partition + the contract form), subtract/next/order/lengths; Verus lemmas give +1 per civil day incl. the 1582 cut-over, bijection onto 3,652,061 day numbers, order <=> day-number order. No leaf contracts are assumed; one exhaustive execution run is added as a cross-check and as the quick-tier stand-in for the obligations that only run in the thorough tier.',
     'level_note': 'trusted: Kani/CBMC (incl. IEEE-754 model), Verus/Z3, rustc; alloc::fmt::format stubbed (message text only); stub_verified callers see only the separately proved conversion contracts; quick tier proves the inverse conversion on a boundary + seed-rotated subset of slices and says which (full partition in thorough)',
     'functions': [
         'JulianDay::from_ymd_hms', 'JulianDay::get_solar_time', 'JulianDay::get_solar_day', 'JulianDay::next',
@@ -39,7 +39,10 @@ REG['C01'] = {
         dict(id='c01_v_calendar', template='verus/c01_calendar.rs',
              clause='spec library exec == math; successor lemma (+1 per civil day incl. 1582 cut-over); jdn strictly monotone in lexicographic order => injective; year/month lengths == jdn differences; count of valid dates == 3652061'),
     ],
-    'L': [],
+    'L': [
+        dict(id='c01_calendar_years', check='c01_calendar_years', range=(1, 9999), chunks=64, exhaustive=True, domain='every candidate (y 1..9999, m 0..13, d 0..32) and every valid date',
+             clause='bounded cross-check of the whole property by execution (acceptance, day count, maps back, day of year, next/subtract/order with the neighbour, lengths, one far step per month); NOT counted as discharged - it is the quick-tier stand-in for the obligations that run in the thorough tier only (c01_k5_next, c01_k7_day_of_year, contract form of get_solar_time)'),
+    ],
     'trusted': ['kani::stub_verified replaces JulianDay::from_ymd_hms / get_solar_time by their (separately proved) contracts in the caller harnesses'],
 }
 
@@ -92,6 +95,7 @@ REG['C06'] = {
 }
 
 REG['C02'] = {
+    'K': [dict(id='c02_k_lunar_to_solar', fn='LunarDay::get_solar_day', clause='jdn(result) == first day number of the month + day - 1, valid date, memoised answer identical (caller sees only the contract of JulianDay::get_solar_time, noon form; that contract is proved in the thorough tier of C01)')],
     'level': 'proof',
     'design_ref': '5/C02',
     'technique': 'Verus on SolarDay::get_lunar_day extracted verbatim (uninterpreted tiling month table) + bijection/order lemmas + exhaustive execution of both conversions over every date',
@@ -216,10 +220,11 @@ REG['C07'] = {
     'design_ref': '5/C07',
     'technique': 'Kani on the weekday formula through the f64 cast (every day number) + Verus lemmas for continuity + exhaustive execution of all three pillar routes over every date',
     'level_text': 'Deductive part: JulianDay::get_week == (day number + 1) mod 7 for every day number in range (Kani, f64 cast path); +1 per civil day incl. the 1582 cut-over from C01 lemmas. Leaf part (exhaustive execution, every civil date 0001..9999): day pillar == (day number + 49) mod 60 by the lunar-date route, the sexagenary-day view and the civil date; weekday by the civil and lunar routes.',
-    'level_note': 'LunarDay::get_sixty_cycle goes through format!/from_name (out of Kani reach, DESIGN 2.3): its arithmetic and the name lookup are covered by the exhaustive run + the pillar-name table check in C19; known findings: reform-year windows (consequence of C03) and 0001-01-01..05 (year-0 term)',
+    'level_note': 'LunarDay::get_sixty_cycle goes through format!/from_name (out of Kani reach, DESIGN 2.3): Kani proves the indices fed to the lookup (recording stubs), the lookup itself is the pillar-name table fact of C19, and the composite is executed for every date; known findings: reform-year windows (consequence of C03) and 0001-01-01..05 (year-0 term)',
     'functions': ['JulianDay::get_week', 'SolarDay::get_week', 'LunarDay::get_week (leaf)', 'LunarDay::get_sixty_cycle (leaf)', 'SixtyCycleDay::from_solar_day / get_sixty_cycle (leaf)'],
     'K': [
         dict(id='c07_k_week', sliced=True, quick='all', fn='JulianDay::get_week', clause='index == (N + 1) mod 7 for every integer day number N of 0001-01-01..9999-12-31'),
+        dict(id='c07_k_lunar_day_pillar_args', fn='LunarDay::get_sixty_cycle', clause='the stem and branch indices fed to the name lookup are first day number + day - 12 (== day number - 11, i.e. pillar (day number + 49) mod 60); real body, constructors replaced by recording stubs, name lookup decomposed (C19 pillar_name)'),
     ],
     'V': [
         dict(id='c01_v_calendar', template='verus/c01_calendar.rs', clause='day number grows by exactly one per civil day (month/year ends, 1582 cut-over) => pillar and weekday advance one step per day'),
@@ -234,10 +239,12 @@ def _leaf_only(text):
     return text
 
 REG['C08'] = {
+    'K': [dict(id='c08_k_first_month_args', fn='SixtyCycleYear::get_first_month', clause='stem index fed to the name lookup == Five-Tigers stem of the year stem, every year -1..9999 (index-faithful cheap constructors)'),
+          dict(id='c08_k_month_pillar_args', fn='LunarMonth::get_sixty_cycle', clause='branch index == 2 + position, stem index == Five-Tigers stem + position (mod 10/12), every year and position')],
     'level': 'other',
     'design_ref': '5/C08',
     'technique': 'contract of SixtyCycleDay::from_solar_day / SixtyCycleHour::from_solar_time (year pillar at Lichun, month pillar at each Jie, Five Tigers) executed exhaustively over every civil date and around every Jie instant; Kani on month stepping',
-    'level_text': 'Mostly bounded: the year/month pillar contract is stated over the term table (Y = floor((k-3)/24), Yin month at Lichun, stem by Five Tigers) and executed for every civil date 0001..9998 (day view) and for the second before/at/after every Jie instant plus one random instant per term (time view, incl. agreement with the day view on days without a Jie). The function bodies go through f64 floor and name-table objects and are outside both verifiers; deductive parts: term search (C06 Verus unit) and the carry of SixtyCycleMonth::next (execution + C11).',
+    'level_text': 'Mostly bounded: the year/month pillar contract is stated over the term table (Y = floor((k-3)/24), Yin month at Lichun, stem by Five Tigers) and executed for every civil date 0001..9998 (day view) and for the second before/at/after every Jie instant plus one random instant per term (time view, incl. agreement with the day view on days without a Jie). The function bodies go through f64 floor and name-table objects and are outside both verifiers; deductive parts: term search (C06 Verus unit), the Five-Tigers index arithmetic of SixtyCycleYear::get_first_month and LunarMonth::get_sixty_cycle (Kani, recording stubs).',
     'level_note': 'exhaustive execution over the finite day domain is complete for the day view but is NOT a proof about the code for all inputs in the sense of K/V; time view is sampled around the switching instants; known findings: day pillar in the reform-year windows (consequence of C03)',
     'explanation': 'bounded stand-in: exhaustive execution of the day-view contract over all 3.65 M dates, boundary-biased execution of the time view; term-search obligations are proved in C06',
     'functions': ['SixtyCycleDay::from_solar_day (leaf)', 'SixtyCycleHour::from_solar_time (leaf)', 'SixtyCycleYear::get_first_month (leaf)', 'LunarMonth::get_sixty_cycle (leaf)', 'SixtyCycleMonth::next / get_index_in_year (leaf)'],
@@ -252,11 +259,12 @@ REG['C08'] = {
 }
 
 REG['C09'] = {
-    'K': [dict(id='c09_k_hour_index', fn='LunarHour::get_index_in_day', clause='index in day == floor((hour+1)/2) for every hour and every lunar day')],
+    'K': [dict(id='c09_k_hour_index', fn='LunarHour::get_index_in_day', clause='index in day == floor((hour+1)/2) for every hour and every lunar day'),
+          dict(id='c09_k_hour_pillar_args', fn='LunarHour::get_sixty_cycle', clause='for all 60 day pillars x 24 hours: branch index fed to the name lookup == floor((h+1)/2) mod 12, stem index == Five-Rats stem of the day stem (next day from 23:00) + branch (mod 10); real body, index-faithful cheap constructors + recording stubs')],
     'level': 'other',
     'design_ref': '5/C09',
     'technique': 'hour-pillar contract (branch floor((h+1)/2) mod 12, Five Rats, 23:00 roll) executed over all 60 x 24 combinations; eight characters == four pillars; inverse search soundness/completeness by seeded execution',
-    'level_text': 'Finite part decided completely by execution: all 60 day pillars x 24 hours x {first, last second}: hour branch, hour stem by Five Rats from the (rolled) day stem, index in day, both eight-character providers. Composition on random instants 0002..9997. Inverse search (bounded, VERIF_SEED-driven): every returned instant has the characters, and the double-hour of the queried instant contains a returned instant (double-hours containing a Jie instant skipped).',
+    'level_text': 'Deductive part (Kani, real body of LunarHour::get_sixty_cycle, all 60 x 24): the branch and stem indices fed to the name lookup follow floor((h+1)/2) mod 12, the Five-Rats rule and the 23:00 roll. Finite part decided completely by execution: all 60 day pillars x 24 hours x {first, last second}: hour branch, hour stem by Five Rats from the (rolled) day stem, index in day, both eight-character providers. Composition on random instants 0002..9997. Inverse search (bounded, VERIF_SEED-driven): every returned instant has the characters, and the double-hour of the queried instant contains a returned instant (double-hours containing a Jie instant skipped).',
     'level_note': 'the hour-pillar functions build name-table objects through format! and cannot be symbolically executed (DESIGN 2.3); the 1,440-case enumeration is complete for the finite clause; the inverse search is sampled (about 2,000 searches per run), not proved',
     'explanation': 'exhaustive execution of the finite hour-pillar contract + bounded execution of composition and inverse-search contracts',
     'functions': ['LunarHour::get_sixty_cycle', 'LunarHour::get_index_in_day', 'SixtyCycleHour::from_solar_time', 'SixtyCycleHour::get_index_in_day', 'SixtyCycleHour::get_eight_char', 'DefaultEightCharProvider / LunarSect2EightCharProvider', 'EightChar::get_solar_times'],
@@ -324,7 +332,9 @@ REG['C16'] = {
 
 REG['C17'] = {
     'K': [dict(id='c17_k_six_star', fn='LunarDay::get_six_star', clause='== (|month| + day - 2) mod 6 for every (month incl. leap, day)'),
-          dict(id='c17_k_minor_ren', fn='LunarDay::get_minor_ren / LunarMonth::get_minor_ren', clause='== ((|month|-1) mod 6 + day - 1) mod 6')],
+          dict(id='c17_k_minor_ren', fn='LunarDay::get_minor_ren / LunarMonth::get_minor_ren', clause='== ((|month|-1) mod 6 + day - 1) mod 6'),
+          dict(id='c17_k_duty', fn='SixtyCycleDay::get_duty', clause='== (day branch - month branch) mod 12; Jian <=> equal branches; all 60 x 60 pillar pairs'),
+          dict(id='c17_k_twelve_star', fn='SixtyCycleDay::get_twelve_star', clause='Azure Dragon at the branch fixed by the month branch, advancing with the day branch; all 60 x 60 pillar pairs')],
     'level': 'other',
     'design_ref': '5/C17',
     'technique': 'defining recurrences of the daily/hourly almanac cycles executed exhaustively over every civil date, every lunar year and every (year branch, month) pair',
